@@ -5,21 +5,23 @@ import vlib
 PID = 'C14'
 
 CLAIM = dict(
-    text='ComplexFun.tla is a catalogue of the 38 public Complex<f64> functions: 55 defining relations chosen definitionally (power series for exp/sin/cos/sinh/cosh, '
-         'reduction to the real function on the real axis, tan = sin/cos and the reciprocal functions, f(f^-1(z)) = z for ln and the twelve inverse functions, (sqrt z)^2 = z, '
+    text='ComplexFun.tla is a catalogue of the 38 public Complex<f64> functions: 57 defining relations chosen definitionally (power series for exp/sin/cos/sinh/cosh, '
+         'reduction to the real function on the real axis, tan = sin/cos, cot = cos/sin and the reciprocal functions (each judged relative to |f(z)|), f(f^-1(z)) = z for ln and the twelve inverse functions, (sqrt z)^2 = z, '
          'z^w = exp(w ln z), log_b z = ln z / ln b, polar round trip, Pythagorean identities, closed forms of new/conj/abs_sqr/abs/zero/one), the inverse/reciprocal pairings, '
-         'the stated range predicates (Re sqrt >= 0, Im ln in (-pi,pi], Re asin in [-pi/2,pi/2], Re acos in [0,pi], arg in (-pi,pi]), singular points, branch cuts, and a lattice of 144 regions '
-         '(8 directions x 7 modulus classes; both sides of each half-axis at 1e-9 x 7 modulus classes; 8 directions around each of +-1, +-i). '
+         'the stated range predicates (Re sqrt >= 0, Im ln in (-pi,pi], Re asin in [-pi/2,pi/2], Re acos in [0,pi], arg in (-pi,pi]), singular points, branch cuts, and a lattice of 941 regions '
+         '(8 directions x 7 modulus classes; both sides of each half-axis at 1e-9 x 7 modulus classes; 8 directions around each of +-1, +-i at distances 1e-3..1e-6; '
+         'neighbourhoods of the 24 poles/zeros n*pi/2, |n| <= 6, of tan/sec/cot/csc on the real and of tanh/sech/coth/csch on the imaginary axis at distances 1e-3, 1e-4, 1e-5, 1e-6 in 8 directions; '
+         'the -0.0 twins of every axis ray and modulus class incl. +-1, +-i; the point 0). '
          'TLC checks the catalogue\'s consistency (every function has a defining relation bottoming out in series/closed forms within 3 levels; pairings mutual and parallel between the trigonometric and hyperbolic tables; '
-         'every cut has lattice regions on it and on both sides of it on every segment; the matrix shape) and enumerates the complete obligation list: relation x region (5 960) plus exact expectations '
+         'every cut has lattice regions on it and on both sides of it on every segment; the matrix shape) and enumerates the complete obligation list: relation x region (11 742) plus exact expectations '
          'sqrt(w^2) for the 48 Gaussian integers |Re|,|Im| <= 3 (principal root by the sign rule) and z^k for 24 Gaussian integers x k in -3..3, computed with ComplexField.tla. '
          'The harness discharges every obligation on the real code; the trace specification accepts iff EVERY obligation appears, in the specification\'s own order, with the parameters the specification fixed, '
          'err_units <= 1, range flag true.',
     note='Decided by the specification/TLC: the case matrix, its complete coverage, the range predicates and which functions pair up, the exact sqrt/integer-power expectations. '
          'NOT decided by TLC: the numeric agreement. TLC cannot evaluate a transcendental function; err_units is measured by trusted Rust code (harness/src/suites/cfun.rs) against independent references '
          '(double-double power series, exp by argument halving, ln by Newton iteration on that exp from the real std ln/atan2, real std functions on the axes) in units of 64*eps*max(1,|values|)*cond, '
-         'where cond is a per-relation constant calibrated on the unchanged tree (26 seeds x 4 passes x 8 random points per region = 14.0e6 evaluations: worst observation 0.0078 unit, i.e. 128x below the guard; no range-predicate failure). This part is of level "exploration" in substance: '
-         'a branch/sign/quadrant error is O(|z|) >= 1e-3, i.e. >= 1e9 units, but an error below ~1e-12 relative is not detected. On a branch cut only the range predicate and the right-inverse identity are demanded (no side convention). '
+         'where cond is a per-relation constant calibrated on the unchanged tree (26 seeds x 4 passes x 8 random points per region = 26.1e6 evaluations: worst observation 0.0078 unit, i.e. 128x below the guard; no range-predicate failure). This part is of level "exploration" in substance: '
+         'a branch/sign/quadrant error is O(|z|) >= 1e-3, i.e. >= 1e9 units, but an error below ~1e-12 relative is not detected. On a branch cut only the range predicate and the right-inverse identity are demanded (no side convention): for arguments with a -0.0 part the open ends of the ranges are closed by the specification and z^w is accepted for either limit of ln z. Next to the poles the quotient definitions are evaluated in double-double from the crate\'s own sin/cos/sinh/cosh at the same f64 argument, so a closed form that cancels there (relative error eps/(2 d^2)) is rejected from d = 1e-3 on. The point 0 lies outside 1e-3 <= |z| but inside the non-overflowing domain; only relations whose members are all finite there are demanded. '
          'Range predicates not stated by the property (e.g. Re acosh >= 0) are not demanded.',
     design='4 (C14), 8, Appendix C')
 
@@ -66,8 +68,8 @@ def check(ctx):
     ctx.notes.append('worst observed error in this run: %.4f units (guard 1 unit)' % (worst / 1e4))
     return ctx.finish(
         rule='cases = the obligations enumerated by TLC from ComplexFun.tla, one event per obligation and pass; each relation obligation is evaluated on the deterministic lattice points of its region '
-             '(moduli 1e-3, 0.3, 0.7, 1-1e-3, 1-1e-6, 1, 1+1e-6, 1+1e-3, 2, 3, 5, 10; angles 15/45/75 degrees inside quadrants; offsets +-1e-9 beside the axes; distances 1e-3, 1e-6 around +-1, +-i) '
-             'plus 2 (quick) / 12 (thorough, 10 passes) seeded random points of the region; two-argument functions on 7-9 fixed second arguments plus random ones (|w| <= 3). '
+             '(moduli 1e-3, 0.3, 0.7, 1-1e-3, 1-1e-6, 1, 1+1e-6, 1+1e-3, 2, 3, 5, 10; angles 15/45/75 degrees inside quadrants; offsets +-1e-9 beside the axes; distances 1e-3..1e-6 around +-1, +-i and around the poles) '
+             'plus 2 (quick) / 12 (thorough, 10 passes) seeded random points of the region; two-argument functions on 14-18 fixed second arguments (exponents exactly -3..3, +-0.5, +-1.5, 0, signed zeros; bases on both real half-axes, the imaginary axis, of modulus one) plus random ones (|w| <= 3). '
              'Distinct = distinct (obligation, worst point).',
         trusted=['TLC', 'ComplexFun.tla catalogue (consistency-checked)', 'harness/src/suites/cfun.rs: point generation per region descriptor, double-double reference series, error measurement',
                  'real std functions (f64::sin, exp, ln, atan2, ...) as axis references and Newton starting values'])
